@@ -6,6 +6,8 @@ import subprocess, sys, os, importlib.util
 wt = '/tmp/mkmut-wt'
 if not os.path.isdir(wt):
     subprocess.check_call(['git', '-C', '/repo', 'worktree', 'add', '-q', '--detach', wt, 'HEAD'])
+head = subprocess.check_output(['git', '-C', '/repo', 'rev-parse', 'HEAD']).decode().strip()
+subprocess.check_call(['git', '-C', wt, 'checkout', '-q', '--detach', head])
 spec = importlib.util.spec_from_file_location('cat', '/verif/mutants/catalogue.py'); cat = importlib.util.module_from_spec(spec); spec.loader.exec_module(cat)
 only = set(sys.argv[1:])
 bad = 0
